@@ -6,7 +6,7 @@ from props import compilecommon as cc
 
 LEVEL = "model_checking"
 MATCHERS = dict(cc.MATCHERS)
-ALL = ["cl21", "cl21+O", "s21", "cl23", "cl23+O", "cl231", "cl231+O", "cl24", "cl24+O"]
+ALL = ["cl21", "cl21+O", "s21", "cl22", "cl22+O", "cl23", "cl23+O", "cl231", "cl231+O", "cl24", "cl24+O"]
 KINDS = {"bad", "badpair", "badopt"}
 
 
@@ -37,19 +37,17 @@ def shipped(acc):
 
 def run(tier, acc):
     acc.rule = ("as C01, with every program compiled under the option matrix {optimisation off, optimisation on (+ classic post-optimiser)} "
-                "x {cl21, strict-cl21, cl23, cl23.1, cl24} (cl22 on a fixed corpus); Trace_Compile evaluates three clauses on the "
+                "x {cl21, strict-cl21, cl22, cl23, cl23.1, cl24}; Trace_Compile evaluates three clauses on the "
                 "observations: each build equals Chialisp!RunProgram when that returns; any two builds of one dialect group (of both "
                 "groups when the program has no zero-leading-byte literal) that return values return the same; for programs without "
                 "statically failing closed subexpressions (StaticFail) a value-returning unoptimised build implies a value-returning "
                 "optimised one. Shipped programs (game referee, CAT/DID, rosetta, cse-*, deinline, singleton): the two differential "
                 "clauses on generic argument trees. non-trivial = runs where the source returned a value")
-    acc.assumptions = ["as C01", "StaticFail is decided on syntactically closed subexpressions (literals, primitives, if, list)"]
+    acc.assumptions = ["as C01", "StaticFail: a subexpression occurrence fails for every input when Chialisp!SEval fails on it in its static environment (parameters unknown, let/assign-bound names and call arguments propagated)"]
     n = 200 if tier == "quick" else 3000
     res, cs = cc.drive(acc, "full", n, 3, "full", ALL)
     acc.violations += cc.records("C02", res, cs, KINDS)
     res, cs = cc.drive(acc, "core", n // 2, 3, "core", ALL)
-    acc.violations += cc.records("C02", res, cs, KINDS)
-    res, cs = cc.drive(acc, "cl22", 120 if tier == "quick" else 600, 3, "core", ["cl22", "cl22+O", "cl21"], fixed_seed=22)
     acc.violations += cc.records("C02", res, cs, KINDS)
     acc.violations += shipped(acc)
     res, cs = cc.drive(acc, "ladder", 10 if tier == "quick" else 100, 2, "ladder", ALL)
